@@ -45,7 +45,7 @@ ASSUMPTIONS = ['processor failures are Exception subclasses (a plugin raising a 
 
 TYPES = ['COUNTER', 'GAUGE', 'HISTOGRAM', 'SUMMARY', 'COUNTER', 'GAUGE', 'counter', 'Gauge', 'hIsToGrAm', 'summary']
 BAD_TYPES = ['TIMER', '', 'METER', 'clear', 'name', 'COUNTERS', ' counter', 'UNSPECIFIED']
-LOCALS = [['n', 7], ['neg', -3], ['z', 0], ['f', 2.5], ['small', 0.0001], ['t', True], ['fl', False], ['s', 'text'],
+LOCALS = [['w', 'a  b\tc'], ['n', 7], ['neg', -3], ['z', 0], ['f', 2.5], ['small', 0.0001], ['t', True], ['fl', False], ['s', 'text'],
           ['num', ' 12 '], ['dec', '3.50'], ['und', '1_000.25'], ['dot', '.5'], ['badnum', '1.2.3'], ['e', ''],
           ['nothing', None], ['lst', [1, 2]], ['o', {'obj': {'name': 'bob', 'w': 1.5}}], ['big', 123456789012],
           ['negz', '-0'], ['plus', '+4'], ['huge', 10 ** 400], ['nhuge', -(10 ** 400)],
@@ -55,16 +55,19 @@ LOCALS = [['n', 7], ['neg', -3], ['z', 0], ['f', 2.5], ['small', 0.0001], ['t', 
           # beyond the modelled alphabet (more than 15 significant digits, exponents past the double range)
           ['p53', 2 ** 53 + 1], ['d17', '12345678901234567'], ['over', '1e400'], ['under', '1e-400'],
           ['edge', 2 ** 1024 - 2 ** 970], ['edge1', 2 ** 1024 - 2 ** 970 - 1], ['d16', '0.1234567890123456']]
-GLOBALS = {'GNUM': 42, 'GSTR': 'glob', 'GF': 0.125, 'uuid': 'host-uuid'}
+GLOBALS = {'GNUM': 42, 'GSTR': 'glob', 'GF': 0.125, 'uuid': 'host-uuid', **X.SHADOW_GLOBALS}
+LOCALS = LOCALS + X.SHADOW_LOCALS          # locals that shadow a module-level name of the host file
 VALUE_EXPRS = [None, None, '', 'n', 'neg', 'z', 'f', 'small', 't', 'fl', 's', 'num', 'dec', 'und', 'dot', 'badnum', 'e',
                'nothing', 'lst', 'o.w', 'big', 'negz', 'plus', 'n + 1', 'n * f', 'len(lst)', 'GNUM', 'GF', 'GNUM + n',
                'nope', 'n / 0', "boom('HostInterrupt', '5')", 'time_ns()', 'FrameType', 'twice(n)', 'o', 'n > 3',
                "boom('KeyError', 1)", 'uuid', 'huge', 'nhuge', 'huge * 2', 'fl_raise', 'fl_over', 'fl_text', 'fl_ok',
                'float(huge)', '10 ** 400', 'huge', 'fl_raise', 'expo', 'expo2', 'tiny', 'sci', 'infs', 'nans', 'e16', 'e22',
-               'edge', 'nostr']
+               'edge', 'nostr', "len('a  b\tc')", "float(' 2.5\t')", "w.count('  ') + 2", "len('''l1\n\nl2''')", '(n +\n  1)']
+VALUE_EXPRS = VALUE_EXPRS + X.SHADOW_VALUE_EXPRS
 BOUNDARY_EXPRS = ['p53', 'd17', 'over', 'under', 'edge1', 'd16', 'p53 * 3', 'e22 + 1']
-LABEL_EXPRS = ['nostr', 'n', 's', 'f', 'o.name', 'GSTR', 'uuid', 'nope', 'n / 0', 'lst', 'nothing', 't', "boom('SystemExit', 2)",
+LABEL_EXPRS = ["'x  y'", 'w', "w.replace('  ', '_')", "'a\t\tb'", 'nostr', 'n', 's', 'f', 'o.name', 'GSTR', 'uuid', 'nope', 'n / 0', 'lst', 'nothing', 't', "boom('SystemExit', 2)",
                'FrameType', 'e', "d['x']" if False else 'len(s)']
+LABEL_EXPRS = LABEL_EXPRS + X.SHADOW_TEXT_EXPRS
 STATICS = ['x', 'static value', '', 5, True, None, 'ünï', 1.5]
 KEYS = ['k', 'env', 'k', 'path', 'a', 'b']
 NAMES = ['hits', 'orders_total', 'm', 'latency']
